@@ -42,6 +42,9 @@ KNOWN = [  # (finding id, selector, corpus file, witness name)
     ("F4ii", cc.SEL_II, "third_appears_local_queue.json", "third_appears_local_queue"),
     ("F4iii", cc.SEL_III, "stale_track_hungarian.json", "stale_track_hungarian"),
     ("F4iii", cc.SEL_III, "stale_track_max.json", "stale_track_max"),
+    ("F4cap", cc.SEL_CAP, "max_tracks_exceeded.json", "max_tracks_exceeded"),
+    ("F4iv", cc.SEL_IV, "flow_all_nan_fixed_window.json", "flow_all_nan_fw"),
+    ("F4iv", cc.SEL_IV, "flow_all_nan_local_queue.json", "flow_all_nan_lq"),
 ]
 
 
@@ -107,13 +110,72 @@ def sampled_pattern(rng):
     return pat
 
 
+def random_xcfg(rng):
+    """Widened configuration space: max_tracks, optical flow, further feature/score pairs, invalid names."""
+    feat, scoring = rng.choice(cc.FEATURES_X)
+    cfg = {"lq": rng.random() < 0.6, "greedy": rng.random() < 0.4, "window": rng.choice(WINDOWS),
+           "red_max": rng.random() < 0.35, "threshold": rng.choice([F(0), F(0), F(1, 2)]),
+           "features": feat, "scoring": scoring}
+    r = rng.random()
+    if r < 0.55:
+        cfg["max_tracks"] = rng.choice([0, 1, 1, 2, 2, 3])          # read by local queues only
+    if rng.random() < 0.4:
+        cfg["flow"] = True
+        if cfg["scoring"] == "cosine_sim":
+            cfg["features"], cfg["scoring"] = rng.choice(cc.FEATURES)
+    r = rng.random()
+    if r < 0.03:
+        cfg["features"] = "image"                                    # documented, not implemented
+    elif r < 0.06:
+        cfg["scoring"] = rng.choice(["cosine", "dist"])
+    elif r < 0.09:
+        cfg["red_name"] = "weighted"                                 # documented, not implemented
+    elif r < 0.12:
+        cfg["match_name"] = "bipartite"
+    return cfg
+
+
+def xhistory(rng, cfg):
+    pat = sampled_pattern(rng) if rng.random() < 0.7 else rng.choice(list(exhaustive_patterns(3, 3)))
+    hist = history_from_pattern(rng, pat, cfg, rng.choice([64, 64, 16, 2]), low_scores=rng.choice([0, 0.25, 0.4]))
+    off = F(rng.choice([24, 40]))
+    for fr in hist:
+        for d in fr:
+            d["x"], d["y"] = d["x"] + off, d["y"] + off            # inside the synthetic frame (mostly)
+            d["size"] = rng.choice([1, 2])
+    if rng.random() < 0.3:                                           # missing keypoints; sometimes a whole instance
+        for fr in hist:
+            for d in fr:
+                if rng.random() < 0.3:
+                    d["nan"] = rng.choice([[0], [1], [0, 2], [0, 1, 2]])
+    if cfg.get("flow"):
+        r = rng.random()
+        if r < 0.25 and len(hist) > 1:                               # uniform frames from some frame on
+            cfg["blank"] = list(range(rng.randrange(0, len(hist)), len(hist)))
+            if rng.random() < 0.6:
+                cfg["window"] = rng.choice([1, 2])
+        elif r < 0.45:
+            cfg["blank"] = [f for f in range(len(hist)) if rng.random() < 0.3]
+    return hist
+
+
 # ---------------------------------------------------------------------------
 
-def evaluate(run, cases, fixes, label):
+def evaluate(run, cases, fixes, label, widened=False):
     """cases: list of (cfg, hist).  Runs implementation and model, compares, applies the oracle."""
     recs_all = [cc.run_impl(cfg, hist) for cfg, hist in cases]
-    terms = [cc.case_term(cfg, hist, recs, fixes) for (cfg, hist), recs in zip(cases, recs_all)]
-    model = core.coq_eval_sharded(cc.PREAMBLE, terms, "run_case", RENDER, shard=120, jobs=12)
+    skipped = [i for i, recs in enumerate(recs_all) if any("scores" in r and not math.isfinite(
+        float(abs(r["scores"][~(r["scores"] != r["scores"])]).sum())) for r in recs)]
+    if skipped:                                   # an infinite score cannot be written as a rational: not produced by the
+        run.coverage["cases_with_infinite_scores_skipped"] = len(skipped)   # generators; counted if it ever happens
+        cases = [c for i, c in enumerate(cases) if i not in skipped]
+        recs_all = [r for i, r in enumerate(recs_all) if i not in skipped]
+    if widened:
+        terms = [cc.xcase_term(cfg, hist, recs, fixes) for (cfg, hist), recs in zip(cases, recs_all)]
+        model = core.coq_eval_sharded(cc.XPREAMBLE, terms, "(fun r : result => r)", RENDER, shard=120, jobs=12)
+    else:
+        terms = [cc.case_term(cfg, hist, recs, fixes) for (cfg, hist), recs in zip(cases, recs_all)]
+        model = core.coq_eval_sharded(cc.PREAMBLE, terms, "run_case", RENDER, shard=120, jobs=12)
     disagree = contract_bad = check_bad = 0
     stats = run.coverage.setdefault("steps", {})
 
@@ -129,9 +191,38 @@ def evaluate(run, cases, fixes, label):
         same = impl_out == model_out
         # per-step checks made by the model on the recorded inputs
         why = None
+        nok = all(cc.names_ok(cfg))
+        loose_nan = bool(cfg.get("flow") or cfg["scoring"] == "cosine_sim"
+                         or any(d.get("nan") for fr in hist for d in fr))
         for k, ((o, chk, cands), rec) in enumerate(zip(mres, recs)):
-            scoring, nan_ok, valid_ok, greedy_ok, s1, s2, s3 = chk
-            if "scores" in rec and unique_uids:
+            scoring, nan_ok, valid_ok, greedy_ok, s1, s2, s3 = chk[:7]
+            if "cands" in rec:
+                # the candidates update_candidates handed to get_scores (uids per current track, oldest first) are the
+                # ones the model's queues hold; the optical-flow tracker lists a local queue grouped by frame: as a set
+                bump("candidate_lists_compared")
+                a, b = rec["cands"], cands
+                if cfg.get("flow") and cfg["lq"]:
+                    a, b = [sorted(x) for x in a], [sorted(x) for x in b]
+                if a != b:
+                    check_bad += 1
+                    why = why or f"frame {k}: candidates of the implementation {rec['cands']} != model {cands}"
+            if loose_nan:
+                if "scores" in rec and any(not cl and not all(math.isnan(row[t]) for row in rec["scores"].tolist())
+                                           for t, cl in enumerate(cands)):
+                    check_bad += 1
+                    why = why or f"frame {k}: a track without candidate has a score"
+                nan_ok = True
+            if widened:
+                s_cap, s_iv, s_allnan = chk[7:10]
+                bump("sel_cap_steps", int(s_cap)); bump("sel_iv_steps", int(s_iv)); bump("all_nan_matrices", int(s_allnan))
+                cap_raise = rec.get("raises") == "Exception" and "Exceeding max tracks" in rec.get("msg", "")
+                if cap_raise or (fixes.get("cap") and cfg["lq"] and cfg.get("max_tracks") is not None and any(
+                        i.track is None and i.score > float(cfg["threshold"]) for i in rec.get("out", []))):
+                    bump("max_tracks_binding_calls")        # the cap decided the outcome of this call
+                if s_cap != cap_raise:
+                    check_bad += 1
+                    why = why or f"frame {k}: model's max_tracks selector {s_cap}, implementation raised: {cap_raise}"
+            if "scores" in rec and unique_uids and not cfg.get("flow"):
                 # the recorded matrix is the reduction, over the candidates the model's queues hold, of the
                 # repo's scoring function (ties window/queue contents to get_scores beyond the NaN pattern)
                 M0 = rec["scores"]
@@ -147,19 +238,19 @@ def evaluate(run, cases, fixes, label):
             if scoring:
                 scoring_steps += 1
                 bump("scoring_steps")
-            if scoring != ("scores" in rec or "scores_error" in rec):
+            if scoring != ("scores" in rec or ("scores_error" in rec and nok)):
                 same, why = False, f"frame {k}: scoring path taken by impl={not scoring} model={scoring}"
             if not (nan_ok and valid_ok and greedy_ok):
                 check_bad += 1
                 why = why or f"frame {k}: nan_consistent={nan_ok} answer_valid={valid_ok} greedy_run={greedy_ok}"
             if "raises" in rec:
                 bump("raises_" + rec["raises"])
-            if "scores" in rec and not cfg["greedy"] and ("answer" in rec or "answer_error" in rec):
+            if "scores" in rec and cc.match_name(cfg) == "hungarian" and ("answer" in rec or "answer_error" in rec):
                 M = rec["scores"].tolist()
                 n, m = len(hist[k]), rec["n_tracks_before"]
                 bad = cc.hungarian_contract(M, n, m, rec, fixes["iii_hungarian"]) if n * m <= 48 else None
-                if not bad and fixes["iii_hungarian"] and n and m and all(v != v for row in M for v in row):
-                    bad = "every cell of a non-empty matrix is NaN (hypothesis finite_step of the repaired theorem)"
+                if n and m and all(v != v for row in M for v in row):
+                    bump("hungarian_all_nan_matrices")      # premise `finite_step` fails here: selector of F4iv
                 bump("hungarian_contract_checked")
                 if bad:
                     contract_bad += 1
@@ -169,7 +260,10 @@ def evaluate(run, cases, fixes, label):
         # the property itself on the implementation's output
         failing = None
         for k, (fr, rec) in enumerate(zip(hist, recs)):
-            bad = cc.frame_oracle(fr, rec, cfg["threshold"])
+            bad = cc.frame_oracle(fr, rec, cfg["threshold"], cfg, fixes)
+            if bad and not nok and rec.get("raises") == "ValueError" and rec.get("msg", "").startswith("Invalid `"):
+                bump("invalid_name_rejected")               # a name that is no key of the tracker's tables: the
+                bad = None                                  # documented ValueError, outside the property's domain
             if bad:
                 sel = cc.selector_of(cfg, fr, rec, fixes)
                 bump("oracle_fail_" + (sel or "unclassified"))
@@ -189,8 +283,12 @@ def evaluate(run, cases, fixes, label):
         run.case(cc.hist_json(cfg, hist), nontrivial)
         key = ("lq" if cfg["lq"] else "fw") + "/" + ("greedy" if cfg["greedy"] else "hungarian")
         bump("cfg_" + key)
-        bump("feat_" + cfg["features"] + "+" + cfg["scoring"] + "/" + ("max" if cfg["red_max"] else "mean"))
+        bump("feat_" + cfg["features"] + "+" + cfg["scoring"] + "/" + cc.red_name(cfg))
         bump(f"window_{cfg['window']}")
+        if widened:
+            bump("x_flow", int(bool(cfg.get("flow")))); bump("x_max_tracks", int(cfg.get("max_tracks") is not None))
+            bump("x_invalid_name", int(not nok)); bump("x_nan_keypoints", int(any(d.get("nan") for fr in hist for d in fr)))
+            bump("x_below_threshold", int(any(F(d["score"]) <= cfg["threshold"] for fr in hist for d in fr)))
     return disagree, check_bad, contract_bad
 
 
@@ -274,7 +372,7 @@ def replay_known(run, fixes):
         cfg, hist = cc.hist_from_json(json.load(open(path))) if path.exists() else cc.witness_case(wname)
         recs = cc.run_impl(cfg, hist)
         for k, (fr, rec) in enumerate(zip(hist, recs)):
-            bad = cc.frame_oracle(fr, rec, cfg["threshold"])
+            bad = cc.frame_oracle(fr, rec, cfg["threshold"], cfg, fixes)
             if bad:
                 run.violation("failing-input", {"case": cc.hist_json(cfg, hist), "frame": k, "oracle": bad,
                                                 "impl": [cc.out_pairs(r) for r in recs], "witness": wname,
@@ -296,8 +394,9 @@ def check(run: core.Run) -> int:
 
     cases = []
     # witnesses and corpus first
-    for _, _, _, wname in KNOWN:
-        cases.append(cc.witness_case(wname))
+    for _, sel, _, wname in KNOWN:
+        if sel not in (cc.SEL_CAP, cc.SEL_IV):
+            cases.append(cc.witness_case(wname))
     # exhaustive presence patterns, K <= 2 animals, F <= 4 frames, x {fw,lq} x {hungarian,greedy}
     n_exh = 0
     for pat in exhaustive_patterns():
@@ -324,6 +423,31 @@ def check(run: core.Run) -> int:
                    check_bad == 0, f"{check_bad} steps")
     run.obligation("Hungarian oracle contract on every recorded answer (brute force): optimal finite assignment, "
                    "fails iff infeasible", contract_bad == 0, f"{contract_bad} steps")
+    # --- the widened model (C09/TrackerX.v): max_tracks, optical-flow tracker, further feature/score pairs, missing
+    # keypoints, invalid names; witnesses of F4cap / F4iv first
+    xcases = [cc.witness_case(w) for _, sel, _, w in KNOWN if sel in (cc.SEL_CAP, cc.SEL_IV)]
+    xcases += [(dict(c, max_tracks=mt), h) for c, h in (cc.witness_case("third_appears_local_queue"),)
+               for mt in (0, 1, 2, 3)]
+    n_x = 4000 if thorough else 420
+    for _ in range(n_x):
+        cfg = random_xcfg(rng)
+        xcases.append((cfg, xhistory(rng, cfg)))
+    xd, xc, xh = evaluate(run, xcases, fixes, "widened histories", widened=True)
+    run.obligation("correspondence (widened model): TrackerX.xrun (Coq, vm_compute) == Tracker.track / "
+                   "FlowShiftTracker.track (/repo) frame by frame: max_tracks, optical flow on synthetic frames, "
+                   "missing keypoints, 7 feature/score pairs, invalid names", xd == 0, f"{xd} disagreements")
+    run.obligation("widened model-side checks: candidates handed to get_scores == the model's queues (uids per track), "
+                   "score matrix recomputed from them (no flow), answers valid / greedy runs, the model's max_tracks "
+                   "selector fires exactly on the calls that raise 'Exceeding max tracks'", xc == 0, f"{xc} steps")
+    run.obligation("Hungarian oracle contract on every recorded answer of the widened histories", xh == 0, f"{xh} steps")
+    st = run.coverage["steps"]
+    run.obligation("the widened stream reaches what it is for: max_tracks exceeded, all-NaN score matrices, flow, "
+                   "invalid names, below-threshold detections, missing keypoints",
+                   all(st.get(k, 0) > 0 for k in ("max_tracks_binding_calls", "all_nan_matrices", "x_flow", "x_invalid_name",
+                                                  "x_below_threshold", "x_nan_keypoints", "candidate_lists_compared")),
+                   str({k: st.get(k, 0) for k in ("max_tracks_binding_calls", "sel_cap_steps", "sel_iv_steps", "all_nan_matrices", "x_flow",
+                                                  "x_max_tracks", "x_invalid_name", "x_below_threshold",
+                                                  "x_nan_keypoints", "candidate_lists_compared")}))
     check_matchers(run, 1500 if thorough else 300, fixes)
 
     run.coverage.update({
@@ -334,7 +458,7 @@ def check(run: core.Run) -> int:
         "rule": "case = (tracker configuration, history of detections with positions and scores); non-trivial = at least "
                 "one frame goes through scoring and matching; distinct by full content",
     })
-    for c in (cases[0], cases[len(KNOWN) + 7], cases[-1]):
+    for c in (cases[0], cases[12], cases[-1], xcases[0], xcases[-1]):
         run.sample(cc.hist_json(*c))
     run.trusted += [
         "scipy.optimize.linear_sum_assignment is an oracle (contract: optimal finite one-to-one assignment of size min(n,m), "
@@ -343,9 +467,10 @@ def check(run: core.Run) -> int:
         "feature extraction and scoring functions (oks, euclidean distance, iou, nanmean/nanmax) enter through the recorded score matrix",
         "duck-typed instances (.numpy(), .score, .track, .tracking_score) stand for sleap_io.PredictedInstance",
     ]
-    run.assumptions += ["max_tracks = None (the documented 'Exceeding max tracks' exception is outside the property)",
-                        "keypoints are finite (a NaN score then means: the track has no candidate in the window)",
-                        "window_size >= 1"]
+    run.assumptions += ["window_size >= 1",
+                        "feature/score pairs whose shapes do not fit (keypoints+iou, centroids+oks, ...) fail inside the "
+                        "scoring function and are not generated",
+                        "FlowShiftTracker: cv2.calcOpticalFlowPyrLK is an oracle (enters through the recorded score matrix)"]
     return run.finish()
 
 
@@ -353,10 +478,14 @@ def replay(run: core.Run, path: str) -> int:
     cc.impl()
     rep = json.load(open(path))
     cfg, hist = cc.hist_from_json(rep["case"] if "case" in rep else rep)
+    fixes, _ = cc.detect_fixes()
     recs = cc.run_impl(cfg, hist)
     bad = None
+    nok = all(cc.names_ok(cfg))
     for k, (fr, rec) in enumerate(zip(hist, recs)):
-        bad = cc.frame_oracle(fr, rec, cfg["threshold"])
+        bad = cc.frame_oracle(fr, rec, cfg["threshold"], cfg, fixes)
+        if bad and not nok and rec.get("raises") == "ValueError" and rec.get("msg", "").startswith("Invalid `"):
+            bad = None
         if bad:
             bad = f"frame {k}: {bad}"
             break
